@@ -121,6 +121,11 @@ func (t *HarfbuzzShaper) Shape(input Input) Output {
 			GlyphID:      g,
 			Mask:         t.buf.Info[i].Mask,
 		}
+		// the advances and offsets come from the shaper: they do not depend on the outline
+		glyphs[i].XAdvance = fixed.I(int(t.buf.Pos[i].XAdvance)) >> scaleShift
+		glyphs[i].YAdvance = fixed.I(int(t.buf.Pos[i].YAdvance)) >> scaleShift
+		glyphs[i].XOffset = fixed.I(int(t.buf.Pos[i].XOffset)) >> scaleShift
+		glyphs[i].YOffset = fixed.I(int(t.buf.Pos[i].YOffset)) >> scaleShift
 		extents, ok := font.GlyphExtents(g)
 		if !ok {
 			// Leave the glyph having zero size if it isn't in the font. There
@@ -131,10 +136,6 @@ func (t *HarfbuzzShaper) Shape(input Input) Output {
 		glyphs[i].Height = fixed.I(int(extents.Height)) >> scaleShift
 		glyphs[i].XBearing = fixed.I(int(extents.XBearing)) >> scaleShift
 		glyphs[i].YBearing = fixed.I(int(extents.YBearing)) >> scaleShift
-		glyphs[i].XAdvance = fixed.I(int(t.buf.Pos[i].XAdvance)) >> scaleShift
-		glyphs[i].YAdvance = fixed.I(int(t.buf.Pos[i].YAdvance)) >> scaleShift
-		glyphs[i].XOffset = fixed.I(int(t.buf.Pos[i].XOffset)) >> scaleShift
-		glyphs[i].YOffset = fixed.I(int(t.buf.Pos[i].YOffset)) >> scaleShift
 	}
 	countClusters(glyphs, input.RunEnd, input.Direction.Progression())
 	out := Output{
